@@ -334,6 +334,32 @@ CHECKS = {
         "out": ["uuid collisions", "more than two sessions (symmetry argument only)", "instruction-level data races", "mixed real transports"],
         "assumptions": ["uuid.NewString returns pairwise distinct values"],
     },
+    "C18": {
+        "level_text": "(1) The real Server.ListenAndServe / acceptTransports / consumeTransports / handleChannel / Close (errgroup executed from its SSA) run as "
+                      "symbolic threads over scripted listeners: Close arrives before the serving goroutines ran or after everything settled, with every "
+                      "thread choice at blocking points and up to P pre-emptions explored, 0-1 client connecting, 1-2 listeners, a listener whose Close fails. "
+                      "Verdicts: no reachable panic, the serve call returns ErrServerClosed, every listener is stopped, an established session's client "
+                      "observes 'finished', accepted connections are released, no serving goroutine is left. (2) Callback discipline from the symbolic "
+                      "handleChannel runs of C14: Established exactly once iff the session reached established and before any handler, Finished exactly "
+                      "once afterwards for the same id - also when the client drops the connection abruptly.",
+        "level_note": "Trusted: SSA->SMT executor, bounded cooperative scheduler (switches at blocking points, <= P pre-emptions at synchronisation operations; "
+                      "no instruction-level races, e.g. the unsynchronised srv.shutdown field), z3. Bounds: <= 2 listeners, <= 1 session, P = 1 / 2.",
+        "runs": [
+            {"harness": "HarnessC18StartStop", "grid": {"when": [0, 1]}, "params": {"sched": 1, "P": 1, "listeners": 1},
+             "reach": ["c18:closed"], "threads": True, "tier": "quick"},
+            {"harness": "HarnessC18StartStop", "grid": {"when": [0, 1], "closeerr": [0, 1]}, "params": {"sched": 1, "P": 0, "listeners": 2},
+             "reach": ["c18:closed"], "threads": True, "tier": "quick"},
+            {"harness": "HarnessC18StartStop", "grid": {"when": [0, 1], "backlog": [0, 1]}, "params": {"sched": 1, "P": 2, "listeners": 1},
+             "reach": ["c18:closed"], "threads": True, "tier": "thorough", "timeout": 7000},
+            {"harness": "HarnessC18StartStop", "grid": {"when": [0, 1], "closeerr": [0, 1]}, "params": {"sched": 1, "P": 1, "listeners": 2},
+             "reach": ["c18:closed"], "threads": True, "tier": "thorough", "timeout": 7000},
+            {"harness": "HarnessC14Serve", "grid": {"transport": [0, 2]}, "params": {"enccfg": 2, "depth": 4, "schemecfg": 0, "compcfg": 0, "dropnotice": 1},
+             "reach": ["c18:served-established-session"]},
+        ],
+        "bounds": {"quick": {"listeners": 2, "sessions": 1, "preemptions": 1}, "thorough": {"listeners": 2, "sessions": 1, "preemptions": 2}},
+        "out": ["real listeners' own goroutines", "more than one session", "instruction-level data races"],
+        "assumptions": ["callbacks return normally"],
+    },
     "C20": {
         "level_text": "EnvelopeMux.handleMessage/Notification/RequestCommand/ResponseCommand and the listen loop are executed symbolically over symbolic "
                       "handler tables (per handler: predicate missing or present with a symbolic verdict, handler result nil or error) and pre-loaded inbound "
